@@ -111,6 +111,19 @@ func c02CheckKey(c c02KeyCase) h.Result {
 	if !bytes.Equal(gpriv, want) || !bytes.Equal(gpub, wantPub) {
 		return r.Fail("ed25519.GenerateKey:differs-from-rfc8032", "entropy=%x chunk=%d got=%x want=%x", seed, c.Chunk, []byte(gpriv), want).Result()
 	}
+	// the two returned keys are independent values: writing to one (wiping the
+	// private key, corrupting a copy of the public key in place) leaves the other
+	gpub[0] ^= 0xff
+	if !bytes.Equal(gpriv, want) {
+		return r.Fail("ed25519.GenerateKey:public-key-aliases-private-key", "writing to the returned public key changed the private key").Result()
+	}
+	gpub[0] ^= 0xff
+	for i := range gpriv {
+		gpriv[i] = 0
+	}
+	if !bytes.Equal(gpub, wantPub) {
+		return r.Fail("ed25519.GenerateKey:public-key-aliases-private-key", "wiping the returned private key changed the public key").Result()
+	}
 	return r.Result()
 }
 
